@@ -86,7 +86,7 @@ func ruleConfirmCount() *Rule {
 				}
 				atoms = append(atoms, BoolAtom(fmt.Sprintf("quorum%d", k+1), q))
 			}
-			markFn := p.Func("(*operationManager).markAsVerified")
+			verFld := p.Field("Operation.quorumVerified")
 			renewFn := p.Func("(*lease).renew")
 			tryFn := p.Func("(*Raft).tryApplyReadOnlyOperations")
 			L := enumIdx(stateAtom, "Leader")
@@ -105,10 +105,21 @@ func ruleConfirmCount() *Rule {
 					}
 					if c, ok := in.(*ssa.Call); ok {
 						callee := c.Common().StaticCallee()
-						if callee != nil && (callee == markFn || callee == renewFn) {
+						if callee != nil && callee == renewFn {
 							o := a.Observe("call "+FuncName(callee)+" in "+chainKey(f), f, in, st)
 							o.Extra["kind"] = "verify"
 							o.Extra["fn"] = FuncName(f.Fn)
+						}
+					}
+					// the marking itself, by its effect (whatever the helper is called)
+					if s, fld := storeField(in); s != nil && fld != nil && fld == verFld {
+						if b, ok := constBool(s.Val); ok && b {
+							o := a.Observe("store Operation.quorumVerified := true in "+chainKey(f), f, in, st)
+							o.Extra["kind"] = "verify"
+							o.Extra["fn"] = "elsewhere"
+							if strings.Contains(chainKey(f), "(*Raft).tryApplyReadOnlyOperations") {
+								o.Extra["fn"] = "(*Raft).tryApplyReadOnlyOperations"
+							}
 						}
 					}
 					return st
